@@ -257,11 +257,41 @@ class GoReplayer:
         if r == z3.sat: return False
         return None
 
+    def replayable_types(self):
+        """inputs can be written as Go literals of the function's own package only: decided before any solving"""
+        pkg = self.fr.key.split(':')[-1]
+        slash = pkg.rfind('/'); dot = pkg.find('.', slash + 1)
+        pkg = pkg[:dot] if dot >= 0 else pkg
+        def walk(tid, depth=0, seen=None):
+            seen = seen if seen is not None else set()
+            if tid in seen or depth > 8: return
+            seen.add(tid)
+            t = self.v.tt[tid]
+            k = t.get('k')
+            if k in ('iface', 'typeparam', 'func', 'chan', 'map'):
+                return          # decided per value (nil is fine)
+            self.gotype(tid, pkg)
+            if k in ('ptr', 'slice', 'array'): walk(t['e'], depth + 1, seen)
+            if k == 'struct':
+                for f in t.get('f', []): walk(f['t'], depth + 1, seen)
+        for (name, tid, val, isrecv) in self.params:
+            walk(tid)
+
     def replay(self, ob):
+        try:
+            self.replayable_types()
+        except NoReplay as e:
+            return {'violates': False, 'note': 'not replayable: %s' % e}
+        except Exception:
+            pass
         s = z3.Solver(); s.set('timeout', 20000)
         s.add(ob.hyps)
         if ob.kind == 'proof': s.add(z3.Not(ob.goal))
-        if s.check() != z3.sat:
+        import signal
+        signal.alarm(30)          # (replays run in a forked child: a solver call that ignores its timeout ends the child, not the check)
+        r0 = s.check()
+        signal.alarm(0)
+        if r0 != z3.sat:
             return {'violates': False, 'note': 'in-process solver did not reproduce the model'}
         m = s.model()
         try:
